@@ -409,17 +409,18 @@ def render(c, ob):
                 outs.append('(GLayers %s)' % clist([clist([r_node(p) for p in layer]) for layer in o[1]]))
         return '(COps %s %s)' % (clist(ops), clist(outs))
     specs = []
-    # the engine registers steps in the iteration order of the nested steps dict
-    nested = {}
+    # the engine registers the Steps found in the processes dict first (Engine._find_process_paths), then the
+    # steps dict, each in the iteration order of the nested dict
+    nested_p, nested = {}, {}
     for st in c['steps']:
-        nest(nested, st['path'], st)
+        nest(nested_p if st.get('in_processes') else nested, st['path'], st)
 
     def flat(d):
         out = []
         for k, v in d.items():
             out.extend(flat(v) if 'path' not in v else [v])
         return out
-    for st in flat(nested):
+    for st in flat(nested_p) + flat(nested):
         deps = 'None' if st['deps'] is None else '(Some %s)' % clist([r_node(d) for d in st['deps']])
         specs.append('{| s_path := %s; s_deps := %s; s_reads := %s; s_write := %s |}' % (
             r_node(st['path']), deps, clist([cN(r) for r in st['reads']]), cN(st['write'])))
